@@ -2,12 +2,12 @@
 import histcheck
 
 PID = "C19"
-COMMON = ["hist", "-signed", "-proj", "hold,config", "-boundary", "-gov", "-jumps", "-valstatus", "-maxops", "6"]
+COMMON = ["hist", "-signedhalf", "-proj", "hold,config", "-boundary", "-gov", "-jumps", "-valstatus", "-maxops", "6", "-dbias", "2", "-stories", "60"]
 
 def run(tier, seed, replay):
     return histcheck.run(
         PID, tier, seed, replay, "Authority_Trace",
         COMMON + ["-n", "50", "-blocks", "40"],
         COMMON + ["-n", "400", "-blocks", "60"],
-        "Signed mode: every message of an account whose key the harness holds travels as a transaction really signed by the account that the message's signer annotation names, through the ante handler the production app has installed (signature / sequence checks, stake-change guard), before it reaches the message router. Authority.tla: per message class the required authority (governance for the six privileged messages, current team for UpdateTeam), the frame condition on configuration (params, cycle-list digest, data specs, minter started, attestation limit, team) and, for every other message, that no account outside MayTouch (signer; disputed reporter and the backers of the report's stake snapshot when a dispute is funded; selectors of a reporter paying a fee from stake; the removed selector) has its liquid balance, delegated stake or reward credit reduced or its selection changed. Histories execute every message type signed by users, validator operators, team, the governance authority and non-authority signers for privileged messages; every account's holdings and the configuration are projected before/after each message and decided by TLC.",
+        "Signed mode (every second history): every message of an account whose key the harness holds travels as a transaction really signed by the account that the message's signer annotation names, through the ante handler the production app has installed (signature / sequence checks, stake-change guard), before it reaches the message router. Authority.tla: per message class the required authority (governance for the six privileged messages, current team for UpdateTeam), the frame condition on configuration (params, cycle-list digest, data specs, minter started, attestation limit, team) and, for every other message, that no account outside MayTouch (signer; disputed reporter and the backers of the report's stake snapshot when a dispute is funded; selectors of a reporter paying a fee from stake; the removed selector) has its liquid balance, delegated stake or reward credit reduced or its selection changed. Histories execute every message type signed by users, validator operators, team, the governance authority and non-authority signers for privileged messages; every account's holdings and the configuration are projected before/after each message and decided by TLC.",
         ["backers of a disputed report = delegators in the stake snapshot recorded at report time (C10 checks that snapshot against observed stake)", "production wiring (app.New): module authorities are the real governance module address"])
